@@ -160,7 +160,7 @@ CATALOGUE = [
     ("C04", "c04-reverse-colour-unguarded", CP, "            if (sink_id, source_id, signal_name) not in self._edge_wire_colors:\n                self._edge_wire_colors[(sink_id, source_id, signal_name)] = wire_color\n", "            self._edge_wire_colors[(sink_id, source_id, signal_name)] = wire_color\n", 1, "fire", "C04-R7"),
     ("C13", "c13-label-candidate", SA, "        if entry.debug_label and not candidates:\n", "        if entry.debug_label and entry.debug_label not in candidates:\n", 1, "fire", "C13-R9"),
     ("C14", "c14-dynamic-select-unchecked", AN, "            self.validate_signal_type_with_error(expr.signal_type, expr, \"in bundle selection\")\n", "", 1, "fire", "BundleSelectExpr"),
-    ("C15", "c15-memory-id-shared", ML, "        if self.ir_builder.get_operation(f\"mem_create_{memory_id}\") is not None:\n", "        if False:\n", 1, "fire", "fresh per expansion"),
+    ("C15", "c15-memory-id-shared", ML, "            memory_id = self.ir_builder.next_id(f\"mem_{stmt.name}\")\n", "            pass\n", 1, "fire", "fresh per expansion"),
     ("C16", "c16-memory-refs-not-cut", SL, "            self.parent.memory_refs = {\n                k: (saved_memory_refs[k] if k in iteration_locals else v)\n                for k, v in self.parent.memory_refs.items()\n                if k in saved_memory_refs\n            }\n", "", 1, "fire", "memory_refs"),
     ("C01", "c01-placeholder-compares-operand", EE, "            condition_kwargs[\"comparator\"] = \"=\" if holds else \"!=\"\n            condition_kwargs[\"first_signal\"] = \"signal-0\"\n            condition_kwargs[\"constant\"] = 0\n", "            condition_kwargs[\"first_signal\"] = \"signal-0\"\n            condition_kwargs[\"constant\"] = right_operand\n", 1, "fire", "placeholder"),
     ("C02", "c02-filter-no-resolver", EL, "            output_const = ConstantFolder.extract_constant_int(\n                expr.output_value,\n                self.diagnostics,\n                symbol_resolver=self._resolve_constant_symbol,\n            )\n            if output_const is None:", "            output_const = ConstantFolder.extract_constant_int(expr.output_value, self.diagnostics)\n            if output_const is None:", 1, "fire", "C02-R8"),
@@ -168,6 +168,8 @@ CATALOGUE = [
     ("C10", "c10-fold-bundle-const", OPT, "            if isinstance(op, IRConst) and not op.signals:\n                const_map[op.node_id] = op", "            if isinstance(op, IRConst):\n                const_map[op.node_id] = op", 1, "fire", "C10-R14"),
     ("C20", "c20-strip-source", CLI, "program = parser.parse(source_code.rstrip(), source_name)", "program = parser.parse(source_code.strip(), source_name)", 1, "fire", "C20-R10"),
     ("C13", "c13-bundle-member-unregistered", EL, "                    # A member named in the literal is a signal the program uses explicitly\n                    self.parent.ensure_signal_registered(signal_name)\n", "", 1, "fire", "BundleLiteral member"),
+    ("C02", "c02-gate-left-only", BLD, "        condition_signal = left if isinstance(left, SignalRef) else right\n        if isinstance(condition_signal, SignalRef):", "        condition_signal = left\n        if isinstance(left, SignalRef):", 1, "fire", "either side"),
+    ("C02", "c02-filter-no-lock", PL, "                        locked[(right_signal_id.source_id, right_operand)] = \"green\"\n", "                        pass\n", 1, "fire", "filter form"),
     ("C19", "c19-dict-order-from-set", CP, "merge_list = sorted(source_merge_edges.keys())", "merge_list = list(source_merge_edges)", 1, "fire", "C19-R1"),
 ]
 
